@@ -203,7 +203,7 @@ func TestC09(t *testing.T) {
 			}
 		}
 	}
-	nConf := vh.Pick(16, len(confs))
+	nConf := vh.Pick(32, len(confs))
 	order := r.Perm(len(confs))
 	sampled := false
 	for _, ci := range order[:nConf] {
